@@ -34,7 +34,7 @@ var c19Dims = []c19Dim{
 	{"mode", []string{"", "prefer_ocsp", "prefer_crl", "ocsp_only", "crl_only", "disabled", "!bogus"}},
 	{"work_dir", []string{"valid", "", "!missing-directory"}},
 	{"storage_type", []string{"", "memory", "disk", "!bogus"}},
-	{"update_interval", []string{"", "1m", "!bogus"}},
+	{"update_interval", []string{"", "1m", "!bogus", "!0s", "!-5m"}},
 	{"signature_validation_mode", []string{"", "verify", "verify_log", "none", "!bogus"}},
 	{"crl_url", []string{"", "u", "u,u2"}},
 	{"crl_file", []string{"", "f", "f,f2"}},
@@ -675,8 +675,9 @@ func c19Worker(tier string, shard, n int) hWorkerOut {
 			return diff
 		}
 		rep := map[string]interface{}{"driver": "C19", "config": []int(c), "text": c.String()}
-		if strings.HasPrefix(effC.Err, "PANIC") || strings.HasPrefix(effJ.Err, "PANIC") {
-			vs.add("C19|panic", fmt.Sprintf("[%s] loading panicked: caddyfile=%q json=%q", c, effC.Err, effJ.Err), rep)
+		if strings.Contains(effC.Err, "PANIC") || strings.Contains(effJ.Err, "PANIC") {
+			// a panic while loading is not a rejection: caddy does not recover it, the server process ends
+			vs.add("C19|panic|"+c19PanicFeature(c), fmt.Sprintf("[%s] loading panicked: caddyfile=%q json=%q", c, effC.Err, effJ.Err), rep)
 			return
 		}
 		switch {
@@ -730,6 +731,13 @@ func c19InvalidFeature(c c19Conf) string {
 		return "misspelt-key-in-" + c19Dims[dMisspelt].Values[c[dMisspelt]]
 	}
 	return "work_dir=" + map[int]string{1: "omitted", 2: "missing"}[c[dWorkDir]]
+}
+
+func c19PanicFeature(c c19Conf) string {
+	if c.invalid() {
+		return c19InvalidFeature(c)
+	}
+	return "valid-configuration"
 }
 
 func c19ErrFeature(e string) string {
@@ -796,6 +804,89 @@ func c19AfterRejected(chk *fw.Check) int {
 	return n
 }
 
+// c19SurplusArguments: a Caddyfile option of this module takes exactly one value. A second value on the line is a value
+// the administrator wrote down and which would be ignored (`crl_file a.crl b.crl`: the second list is never loaded):
+// loading has to fail, for every option and in every block; the same line without the second value loads.
+func c19SurplusArguments(chk *fw.Check) int {
+	p := world.Std()
+	n := 0
+	files := FreshDir("c19sf")
+	defer os.RemoveAll(files)
+	ca := WritePEM(files, "ca.pem", p.CA.Cert)
+	list := filepath.Join(files, "list.crl")
+	os.WriteFile(list, world.SimpleCRL(p.CA, 1, 701).DER(), 0644)
+	type opt struct{ block, line, extra string }
+	opts := []opt{
+		{"top", "mode crl_only", "ocsp_only"},
+		{"crl", "storage_type memory", "disk"},
+		{"crl", "update_interval 1m", "2m"},
+		{"crl", "signature_validation_mode verify", "none"},
+		{"crl", "crl_url http://crl.test/c19a.crl", "http://crl.test/c19b.crl"},
+		{"crl", "crl_file " + list, list + "2"},
+		{"crl", "trusted_signature_cert_file " + ca, ca + "2"},
+		{"crl", "work_dir", "other"},
+		{"cdp", "crl_fetch_mode fetch_background", "fetch_actively"},
+		{"cdp", "crl_cdp_strict true", "false"},
+		{"ocsp", "default_cache_duration 1m", "2m"},
+		{"ocsp", "ocsp_aia_strict true", "false"},
+		{"ocsp", "trusted_responder_cert_file " + ca, ca + "2"},
+	}
+	for _, o := range opts {
+		for _, surplus := range []bool{false, true} {
+			n++
+			var text string
+			seqWorld(func() {
+				dir := FreshDir("c19s")
+				defer os.RemoveAll(dir)
+				net := world.NewNet()
+				net.Serve("http://crl.test/c19a.crl", "good", world.SimpleCRL(p.CA, 1, 701).DER())
+				line := o.line
+				if o.line == "work_dir" {
+					line = "work_dir " + dir
+				}
+				if surplus {
+					line += " " + o.extra
+				}
+				blocks := map[string][]string{"top": {"mode crl_only"}, "crl": {"work_dir " + dir, "trusted_signature_cert_file " + ca}, "cdp": nil, "ocsp": nil}
+				key := strings.Fields(o.line)[0]
+				var kept []string
+				for _, l := range blocks[o.block] {
+					if strings.Fields(l)[0] != key || key == "trusted_signature_cert_file" {
+						kept = append(kept, l)
+					}
+				}
+				blocks[o.block] = append(kept, line)
+				text = "revocation {\n"
+				for _, l := range blocks["top"] {
+					text += "\t" + l + "\n"
+				}
+				text += "\tcrl_config {\n"
+				for _, l := range blocks["crl"] {
+					text += "\t\t" + l + "\n"
+				}
+				if len(blocks["cdp"]) > 0 {
+					text += "\t\tcdp_config {\n\t\t\t" + strings.Join(blocks["cdp"], "\n\t\t\t") + "\n\t\t}\n"
+				}
+				text += "\t}\n"
+				if len(blocks["ocsp"]) > 0 {
+					text += "\tocsp_config {\n\t\t" + strings.Join(blocks["ocsp"], "\n\t\t") + "\n\t}\n"
+				}
+				text += "}\n"
+				eff := c19Load("caddyfile", []byte(text))
+				switch {
+				case strings.Contains(eff.Err, "PANIC"):
+					chk.Violation("C19|panic|surplus-argument "+key, "loading panicked: "+eff.Err+"\n"+text, map[string]interface{}{"driver": "C19", "caddyfile": text})
+				case surplus && eff.Err == "":
+					chk.Violation("C19|invalid-accepted|caddyfile|surplus-argument "+key, fmt.Sprintf("the option %s is given two values (%q); the configuration loads and the second value is ignored\n%s", key, line, text), map[string]interface{}{"driver": "C19", "caddyfile": text})
+				case !surplus && eff.Err != "":
+					chk.Violation("C19|valid-rejected|caddyfile|single-argument "+key, fmt.Sprintf("the control configuration (one value for %s) fails to load: %s\n%s", key, eff.Err, text), map[string]interface{}{"driver": "C19", "caddyfile": text})
+				}
+			})
+		}
+	}
+	return n
+}
+
 func RunC19(tier string, args []string) int {
 	if len(args) > 0 && args[0] == "hworker" {
 		shard, _ := strconv.Atoi(args[2])
@@ -813,6 +904,7 @@ func RunC19(tier string, args []string) int {
 	}
 	total := runHWorkers(chk, "C19", tier, 16)
 	total.Stats.Transitions += c19AfterRejected(chk)
+	total.Stats.Transitions += c19SurplusArguments(chk)
 	nontrivial := 0
 	for k, v := range total.Outcomes {
 		_ = k
